@@ -35,8 +35,8 @@ CHECKS.update({
  'C07': dict(engine='xform', note=XF_NOTE, technique='Coq proof (frame + closure of the three-phase clone of all eight kinds, for all reachable states) + correspondence of the clone model + identity/structure/independence oracle',
    text='proof (frame and closure clauses on the model, every kind of root): in every state reachable by editing calls, clone() of a netlist, library, definition, port, cable, wire, pin or instance changes no field of any object that existed before the call (kind, all containers and their order, parents, wire pins, pin wires, references, outer-pin tables, top, bundle attributes, data, namespace tables; reference sets are the documented exception) and every containment link of an object created by the call leads to an object created by the call (Props/C07.v: C07_frame_and_closure, C07_full; Proofs/CloneFrame.v carries an invariant CI through the three phases _clone / _clone_rip_and_replace / _clone_rip of all eight kinds; Proofs/CloneStart.v shows every reachable state is a legitimate start); and the copy made by Definition.clone is a well-formed structure: in every reachable state a completed Definition.clone keeps the containment invariant of C01 and the reference-set invariant of C02 for the whole store, old and new (C07_definition_clone_well_formed; Proofs/CloneInv.v, CloneRef.v, RefK.v), and in fact the whole structural invariant of C01/C02 - every wire of the copy lists exactly the copied pins that report it, the outer-pin table of every copied instance mirrors its definition - for the whole store (C07_definition_clone_keeps_invariant), through the faithfulness theorem of Definition._clone (C07_definition_clone_faithful: the memo is injective, each copied pin / wire / instance carries the image of the wire pointer / pin list / outer-pin table of its source, nothing else changes; Proofs/CloneMemo, CloneRR, CloneFaith, CloneInvP, CloneFull, with FieldT: fields are typed in every reachable state). Faithfulness of names, data and ordering, the other kinds of root, of the copy (same structure, names, connectivity) and independence under later edits are decided by the correspondence run (the Gallina clone model vs the real clone() on every element of random hierarchical netlists, full-state dumps) and by the Clone oracle on the implementation.',
    design='DESIGN.md 5/C07, 10'),
- 'C08': dict(engine='xform', note=XF_NOTE, technique='Coq proof (well-formedness kept by every completed run, any fuel; fixpoint on unique designs) + correspondence of the uniquify model + union-find elaboration oracle',
-   text='proof (partial): in every state reachable by editing calls, with any counters and fuel, a uniquify run that completes keeps the containment invariant of C01 and the reference-set invariant of C02 through every Definition.clone, rename, add_definition and reference change (C08_keeps_well_formed; Proofs/UniqInv.v over CloneInv/CloneRef/RefK) - and the whole structural invariant Inv of C01/C02 incl. pin-wire links and outer-pin tables (C08_keeps_full_invariant; Proofs/CloneFull.v over the faithfulness of Definition._clone) - and on a design whose walked instances are all unique or leaves, uniquify returns the state unchanged (C08_unique_is_fixpoint). The full statement C08_full is kept as a Definition; on every run the model of uniquify (BFS, Definition.clone, add_definition at index+1, rename with the module counter, reference change) is compared with the implementation (full-state dumps incl. announcements) and an independent elaboration (instance tree, leaf types, endpoint partition by union-find) is compared before/after, plus uniqueness, well-formedness, fresh names, idempotence.',
+ 'C08': dict(engine='xform', note=XF_NOTE, technique='Coq proof (every walked instance unique afterwards; whole structural invariant kept; idempotence) + correspondence of the uniquify model + union-find elaboration oracle',
+   text='proof (uniqueness, well-formedness and idempotence clauses on the model; same-elaborated-design clause by oracle): in every reachable state whose top definition is referenced by the parentless top instance only, after a completed uniquify the walk finds every instance it meets unique - its definition a leaf or referenced by it alone - and a second run returns the state unchanged (C08_makes_unique, C08_idempotent; Proofs/UniqFull.v); in every state reachable by editing calls, with any counters and fuel, a uniquify run that completes keeps the containment invariant of C01 and the reference-set invariant of C02 through every Definition.clone, rename, add_definition and reference change (C08_keeps_well_formed; Proofs/UniqInv.v over CloneInv/CloneRef/RefK) - and the whole structural invariant Inv of C01/C02 incl. pin-wire links and outer-pin tables (C08_keeps_full_invariant; Proofs/CloneFull.v over the faithfulness of Definition._clone) - and on a design whose walked instances are all unique or leaves, uniquify returns the state unchanged (C08_unique_is_fixpoint). The full statement C08_full is kept as a Definition; on every run the model of uniquify (BFS, Definition.clone, add_definition at index+1, rename with the module counter, reference change) is compared with the implementation (full-state dumps incl. announcements) and an independent elaboration (instance tree, leaf types, endpoint partition by union-find) is compared before/after, plus uniqueness, well-formedness, fresh names, idempotence.',
    design='DESIGN.md 5/C08, 10'),
  'C09': dict(engine='xform', note=XF_NOTE, technique='Coq proof (flatten preserves the C01/C02 invariants, by composition of the step lemmas) + correspondence of the flatten model + elaboration oracle',
    text='proof (partial): flatten, modelled literally as a composition of the public IR calls, preserves the containment invariant and the reference-set invariant for any netlist, fuel and outcome except the stuck one (Props/C09.v). The connectivity clause C09_full is kept as a Definition; on every run the flatten model is compared with the implementation (full-state dumps) and the independent elaboration before flatten is compared with a direct reading of the flattened top (leaf per leaf path, names, endpoint partition iff).',
